@@ -41,8 +41,8 @@ def run(chk):
         cid += n
     lines += gen_shapes.make_cases(chk.seed * 7919 + 4, nmix, KINDS, steps=6, pq=0.4, start=cid, mix=(0.5, 0.15, 0.2, 0.15))
     # targeted cases (see tools/gen_shapes.py make_targeted)
-    lines += gen_shapes.make_targeted(chk.seed * 104729 + 6, 600 if chk.quick else 12000, KINDS)
+    lines += gen_shapes.make_targeted(chk.seed * 104729 + 6, 600 if chk.quick else 6000, KINDS)
     # rational / double boxes with half-open intervals get a stream of their own
-    lines += gen_shapes.make_targeted(chk.seed * 1299709 + 8, 160 if chk.quick else 4000, ["box_q"], start=100000, which=["open_box", "open_box", "diff_eq"])
+    lines += gen_shapes.make_targeted(chk.seed * 1299709 + 8, 160 if chk.quick else 2000, ["box_q"], start=100000, which=["open_box", "open_box", "diff_eq"])
     out, byid = shapescheck.run_cases(chk, "C04", shapescheck.corpus_cases("C04") + lines, "c04", owner)
     shapescheck.account(chk, out, byid, "C04_* (tightness of closed forms, exactness of the comparisons, best abstraction) + verified equivalence / supremum")
